@@ -15,6 +15,13 @@ func GenC18Client(r *RNG) *CliPlan {
 	p.Srv = PeerCfg{InitialWindow: 1 << 20, MaxFrameSize: Pick(r, int64(-1), 16384, 16385, 65536), HeaderTableSize: Pick(r, int64(-1), 0, 100, 4096, 8192, 65536),
 		AutoWindow: true, ConnWindowBoost: 1 << 24, DrainGrants: true}
 	p.SrvMaxStreams = Pick(r, int64(-1), 1, 2, 3, 100)
+	if r.Intn(3) == 0 {
+		// request bodies that stall on a small window and are resumed by the grants of the drain phase, after whatever
+		// SETTINGS the control lane has sent in between: what is sent then has to go by the values acknowledged last
+		p.Srv.AutoWindow = false
+		p.Srv.InitialWindow = Pick(r, int64(1000), 20000, 40000)
+		p.Srv.MaxFrameSize = Pick(r, int64(65536), 65536, 1<<20)
+	}
 	n := 2 + r.Intn(5)
 	o := CliOpts{MaxBody: 70000, BodyModes: []string{"buffered", "stream-declared"}, RespMaxBody: 1000, AlwaysWaitEnd: true}
 	big := r.Intn(4) == 0
@@ -56,7 +63,7 @@ func GenC18Client(r *RNG) *CliPlan {
 			case 2:
 				kv = append(kv, [2]uint32{4, uint32(Pick(r, 65535, 1<<20, 1<<24))})
 			case 3:
-				kv = append(kv, [2]uint32{5, uint32(Pick(r, 16384, 16385, 1<<20))})
+				kv = append(kv, [2]uint32{5, uint32(Pick(r, 16384, 16384, 16385, 1<<20))})
 			case 4:
 				kv = append(kv, [2]uint32{6, uint32(Pick(r, 100, 1<<20))})
 			case 5:
